@@ -135,6 +135,22 @@ class Folder:
         self.depth = 0
         self.pick = 'lo'                        # how an AbsIdx is made concrete
         self.capture_returns = False            # stop at the first return statement reached (Captured)
+        self.enum_tables = {}                   # enumeration class name -> member names (in definition order); validates enums.X['K']
+
+    def items_of(self, v):
+        """the elements iterating over v yields"""
+        if isinstance(v, EnumClass):
+            if v.name not in self.enum_tables:
+                raise Unfoldable('members of enums.%s' % v.name)
+            return [Enum(v.name, m_) for m_ in self.enum_tables[v.name]]
+        if isinstance(v, (Opaque, AbsNum, SymInt)):
+            raise Unfoldable('iteration over an abstract value')
+        if isinstance(v, dict):
+            return [k for k in v if k != '__attrs__']
+        try:
+            return list(v)
+        except TypeError:
+            raise Raised('TypeError', None)
 
     def conc(self, v):
         if isinstance(v, AbsIdx):
@@ -250,6 +266,12 @@ class Folder:
                 return b[lo:hi:st]
             if isinstance(b, EnumClass):
                 k_ = self.ev(e.slice, env)
+                if isinstance(k_, (list, dict, set)):
+                    raise Raised('TypeError', e)         # unhashable key
+                if b.name in self.enum_tables:
+                    if isinstance(k_, str) and k_ in self.enum_tables[b.name]:
+                        return Enum(b.name, k_)
+                    raise Raised('KeyError', e)
                 if isinstance(k_, str):
                     return Enum(b.name, k_)
                 raise Unfoldable('enumeration lookup by a non-string')
@@ -284,7 +306,7 @@ class Folder:
             emit(env)
             return
         g = gens[i]
-        for v in self.ev(g.iter, env):
+        for v in self.items_of(self.ev(g.iter, env)):
             self.tick()
             e2 = dict(env)
             self.bind(g.target, v, e2)
@@ -344,8 +366,16 @@ class Folder:
             if isinstance(recv, str) and m in STR_METHODS:
                 return getattr(recv, m)(*args, **kw)
             if isinstance(recv, dict) and m in ('get', 'keys', 'values', 'items'):
-                r = getattr(recv, m)(*args)
-                return list(r) if m != 'get' else r
+                try:
+                    r = getattr(recv, m)(*args)
+                except TypeError:
+                    raise Raised('TypeError', e)
+                if m == 'get':
+                    return r
+                r = list(r)
+                if '__attrs__' in recv:
+                    r = [x for x in r if (x[0] if m == 'items' else x) != '__attrs__'] if m != 'values' else r
+                return r
             if isinstance(recv, (list, tuple)) and m in ('index', 'count'):
                 return getattr(recv, m)(*args)
             if isinstance(recv, list) and m in ('append', 'extend', 'insert'):
@@ -354,7 +384,41 @@ class Folder:
             if isinstance(recv, Opaque):
                 self.calls.append(('%s.%s' % (recv.what, m), e))
                 return Opaque('%s.%s' % (recv.what, m))
+            if isinstance(recv, (set, frozenset)) and m in ('pop', 'add', 'discard', 'remove', 'issubset', 'issuperset', 'union', 'intersection', 'difference', 'copy', 'update'):
+                try:
+                    return getattr(recv, m)(*args)
+                except (KeyError, TypeError) as ex:
+                    raise Raised(type(ex).__name__, e)
+            if isinstance(recv, dict) and '__attrs__' not in recv and m in ('pop', 'setdefault', 'update', 'copy'):
+                try:
+                    return getattr(recv, m)(*args)
+                except (KeyError, TypeError) as ex:
+                    raise Raised(type(ex).__name__, e)
+            if isinstance(recv, list) and m in ('pop', 'remove', 'sort', 'reverse', 'copy'):
+                try:
+                    return getattr(recv, m)(*args)
+                except (IndexError, ValueError, TypeError) as ex:
+                    raise Raised(type(ex).__name__, e)
+            if m in ('items', 'keys', 'values', 'get') and not isinstance(recv, dict):
+                if isinstance(recv, (str, int, float, list, tuple, type(None), bool)):
+                    raise Raised('AttributeError', e)       # mapping method on a non-mapping value
         raise Unfoldable('call of %s' % (name or type(e.func).__name__))
+
+    HIER = {'KeyError': ('LookupError', 'Exception'), 'IndexError': ('LookupError', 'Exception'), 'ValueError': ('Exception',), 'TypeError': ('Exception',),
+            'AttributeError': ('Exception',), 'NotImplementedError': ('RuntimeError', 'Exception'), 'struct.error': ('Exception',)}
+
+    def handler_for(self, trystmt, ex, env):
+        nm = (ex.name or '').split('.')[-1]
+        sup = set(self.HIER.get(ex.name, self.HIER.get(nm, ('Exception',)))) | {nm, 'BaseException'}
+        for h in trystmt.handlers:
+            if h.type is None:
+                return h
+            ts = h.type.elts if isinstance(h.type, ast.Tuple) else [h.type]
+            for t in ts:
+                tn = (dotted(t) or '').split('.')[-1]
+                if tn in sup:
+                    return h
+        return None
 
     # ---- statements
     def bind(self, t, v, env):
@@ -366,6 +430,16 @@ class Folder:
                 raise Raised('ValueError', t)
             for x, y in zip(t.elts, vs):
                 self.bind(x, y, env)
+        elif isinstance(t, ast.Subscript) and not isinstance(t.slice, ast.Slice):
+            b = self.ev(t.value, env)
+            k_ = self.ev(t.slice, env)
+            if isinstance(b, (dict, list)):
+                try:
+                    b[k_] = v
+                except (TypeError, IndexError) as ex:
+                    raise Raised(type(ex).__name__, t)
+            else:
+                raise Unfoldable('item store on %r' % (b,))
         elif isinstance(t, ast.Attribute):
             b = self.ev(t.value, env)
             if isinstance(b, dict) and '__attrs__' in b:
@@ -399,7 +473,7 @@ class Folder:
                     return r
             elif isinstance(s, ast.For):
                 broke = False
-                for v in self.ev(s.iter, env):
+                for v in self.items_of(self.ev(s.iter, env)):
                     self.bind(s.target, v, env)
                     r = self.run(s.body, env)
                     if r[0] == 'break':
@@ -419,6 +493,12 @@ class Folder:
                 nm = None
                 if isinstance(s.exc, ast.Call):
                     nm = dotted(s.exc.func)
+                    # the arguments of the exception are evaluated first - and can raise themselves
+                    for a_ in list(s.exc.args) + [k.value for k in s.exc.keywords]:
+                        try:
+                            self.ev(a_, env)
+                        except Unfoldable:
+                            pass
                 elif s.exc is not None:
                     nm = dotted(s.exc)
                 raise Raised(nm or 're-raise', s)
@@ -430,6 +510,34 @@ class Folder:
                 continue
             elif isinstance(s, (ast.FunctionDef, ast.ClassDef)):
                 env[s.name] = s
+            elif isinstance(s, ast.With):
+                for it in s.items:
+                    v = self.ev(it.context_expr, env)
+                    if it.optional_vars is not None:
+                        self.bind(it.optional_vars, v, env)
+                r = self.run(s.body, env)
+                if r[0] != 'fall':
+                    return r
+            elif isinstance(s, ast.Try):
+                try:
+                    r = self.run(s.body, env)
+                    if r[0] == 'fall' and s.orelse:
+                        r = self.run(s.orelse, env)
+                except Raised as ex:
+                    h = self.handler_for(s, ex, env)
+                    if h is None:
+                        if s.finalbody:
+                            self.run(s.finalbody, env)
+                        raise
+                    if h.name:
+                        env[h.name] = Opaque('exception %s' % ex.name)
+                    r = self.run(h.body, env)
+                if s.finalbody:
+                    rf = self.run(s.finalbody, env)
+                    if rf[0] != 'fall':
+                        return rf
+                if r[0] != 'fall':
+                    return r
             else:
                 raise Unfoldable('statement %s' % type(s).__name__)
         return ('fall', None)
